@@ -1003,6 +1003,8 @@ def eval_option(case, tmpdir=None):
 
     name, opt, v, cat = case["hasher"], case["option"], case["value"], case["cat"]
     key = f"{cat}__{name}__{opt}" if cat else f"{name}__{opt}"
+    if case.get("bare"):
+        key = opt  # the un-prefixed spelling of a context-wide setting
     out = []
     tag = f"{opt}{':category' if cat else ''}"
     try:
@@ -1012,7 +1014,14 @@ def eval_option(case, tmpdir=None):
     except Exception as e:  # noqa: BLE001
         return [(f"C10|options|refused:{tag}:{type(e).__name__}", f"{name}.using({opt}={v!r}) is accepted, CryptContext(schemes=[{name!r}], {key}={v!r}) raised {e!r}")]
     d0 = ctx.to_dict()
-    if d0.get(key, _MISSING) != v or type(d0.get(key)) is not type(v):
+    if case.get("nullish"):
+        # a string that reads as "not set" ('none', ''): stored or not -- what is exported must be exportable everywhere
+        pass
+    elif opt in ("algs", "default_algs") and isinstance(v, str):
+        # (a comma separated string is the INI spelling of a list of names: exported as the list)
+        if d0.get(key) != [x.strip() for x in v.split(",")]:
+            out.append((f"C10|options|to_dict:{tag}", f"CryptContext(schemes=[{name!r}], {key}={v!r}).to_dict() = {d0!r}"))
+    elif d0.get(key, _MISSING) != v or type(d0.get(key)) is not type(v):
         out.append((f"C10|options|to_dict:{tag}", f"CryptContext(schemes=[{name!r}], {key}={v!r}).to_dict() = {d0!r}"))
 
     def same(label, make):
@@ -1048,6 +1057,26 @@ def eval_option(case, tmpdir=None):
         return o
 
     same("update", via_update)
+
+    # update(key=None) UNSETS the key, whatever spelling it was given under (bare / all__ for the context-wide settings)
+    if not case.get("nullish") and v is not None:
+        pairs = [(key, key)]
+        if opt in ("vary_rounds", "truncate_error") and not cat:
+            # the context-wide settings: set and unset under the bare and the all__ spelling, in every combination
+            pairs += [(a, b) for a in (opt, f"all__{opt}") for b in (opt, f"all__{opt}")]
+        for set_key, unset_key in pairs:
+            if True:
+                try:
+                    with warnings.catch_warnings():
+                        warnings.simplefilter("ignore")
+                        o = CryptContext(schemes=[name], **{set_key: v})
+                        o.update(**{unset_key: None})
+                        d2 = o.to_dict()
+                except Exception as e:  # noqa: BLE001
+                    out.append((f"C10|options|unset:raises:{tag}:{type(e).__name__}", f"CryptContext(schemes=[{name!r}], {set_key}={v!r}).update({unset_key}=None) raised {e!r}"))
+                    continue
+                if d2 != {"schemes": [name]}:
+                    out.append((f"C10|options|unset:still_set:{tag}", f"CryptContext(schemes=[{name!r}], {set_key}={v!r}).update({unset_key}=None) still exports {d2!r}"))
     return out
 
 
@@ -1088,6 +1117,8 @@ EXTRAS = [
      "aDmin__context__default": "md5_crypt"},
     {"schemes": ["sha256_crypt", "md5_crypt"], "sha256_crypt__rounds": 1100, "ü b-1__context__default": "md5_crypt", "ü b-1__sha256_crypt__rounds": 1200,
      "42__context__deprecated": "md5_crypt"},
+    # a LIST-valued hasher option (scram's algorithms): the caller's list stays the caller's, and the list survives INI
+    {"schemes": ["md5_crypt", "scram"], "scram__algs": ["sha-1", "sha-256"], "scram__rounds": 10, "deprecated": ["scram"]},
     # an option explicitly given as None ("not set")
     {"schemes": ["sha256_crypt", "md5_crypt"], "sha256_crypt__max_rounds": None, "sha256_crypt__rounds": 1100},
     {"schemes": ["pbkdf2_sha256", "md5_crypt"], "pbkdf2_sha256__rounds": 150, "admin__pbkdf2_sha256__min_rounds": None, "all__vary_rounds": None},
@@ -1224,6 +1255,10 @@ def run(ctx):
     tasks += [{"kind": "history", "base": cfg, "seed": seed, "cls": cls} for cls, cfg in hb]
     tasks += [{"kind": "fault", "base": cfg, "seed": seed, "cls": cls} for cls, cfg in fb]
     ocases = [{"part": "options", "hasher": n, "option": o, "value": v, "cat": c} for n, o, v in option_cases() for c in OPTION_CATS]
+    ocases += [{"part": "options", "hasher": n, "option": "truncate_error", "value": v, "cat": c, "nullish": True}
+               for n in ("bcrypt", "des_crypt") for v in ("none", "None", "") for c in OPTION_CATS]
+    ocases += [{"part": "options", "hasher": n, "option": o, "value": v, "cat": None, "nullish": True, "bare": True}
+               for n in ("bcrypt", "sha256_crypt") for o, v in (("truncate_error", "none"), ("vary_rounds", None))]
     tasks += [{"kind": "options", "cases": ocases[i::16]} for i in range(16)]
     ctx.cov["option_cases"] = len(ocases)
     tasks.append({"kind": "lazy_iter"})
